@@ -13,6 +13,12 @@ theories/Gen/C02HashSpec_ok.vos theories/Gen/C02HashSpec_ok.vok theories/Gen/C02
 theories/Gen/C04Consts.vo theories/Gen/C04Consts.glob theories/Gen/C04Consts.v.beautified theories/Gen/C04Consts.required_vo: theories/Gen/C04Consts.v 
 theories/Gen/C04Consts.vio: theories/Gen/C04Consts.v 
 theories/Gen/C04Consts.vos theories/Gen/C04Consts.vok theories/Gen/C04Consts.required_vos: theories/Gen/C04Consts.v 
+theories/Gen/C05ArgTable.vo theories/Gen/C05ArgTable.glob theories/Gen/C05ArgTable.v.beautified theories/Gen/C05ArgTable.required_vo: theories/Gen/C05ArgTable.v 
+theories/Gen/C05ArgTable.vio: theories/Gen/C05ArgTable.v 
+theories/Gen/C05ArgTable.vos theories/Gen/C05ArgTable.vok theories/Gen/C05ArgTable.required_vos: theories/Gen/C05ArgTable.v 
+theories/Gen/C05HashSpec.vo theories/Gen/C05HashSpec.glob theories/Gen/C05HashSpec.v.beautified theories/Gen/C05HashSpec.required_vo: theories/Gen/C05HashSpec.v 
+theories/Gen/C05HashSpec.vio: theories/Gen/C05HashSpec.v 
+theories/Gen/C05HashSpec.vos theories/Gen/C05HashSpec.vok theories/Gen/C05HashSpec.required_vos: theories/Gen/C05HashSpec.v 
 theories/Gen/C07Consts.vo theories/Gen/C07Consts.glob theories/Gen/C07Consts.v.beautified theories/Gen/C07Consts.required_vo: theories/Gen/C07Consts.v 
 theories/Gen/C07Consts.vio: theories/Gen/C07Consts.v 
 theories/Gen/C07Consts.vos theories/Gen/C07Consts.vok theories/Gen/C07Consts.required_vos: theories/Gen/C07Consts.v 
@@ -28,6 +34,9 @@ theories/Model/ArgTypes.vos theories/Model/ArgTypes.vok theories/Model/ArgTypes.
 theories/Model/Args.vo theories/Model/Args.glob theories/Model/Args.v.beautified theories/Model/Args.required_vo: theories/Model/Args.v theories/Base/Sx.vo theories/Model/ArgTypes.vo
 theories/Model/Args.vio: theories/Model/Args.v theories/Base/Sx.vio theories/Model/ArgTypes.vio
 theories/Model/Args.vos theories/Model/Args.vok theories/Model/Args.required_vos: theories/Model/Args.v theories/Base/Sx.vos theories/Model/ArgTypes.vos
+theories/Model/ArgsInst.vo theories/Model/ArgsInst.glob theories/Model/ArgsInst.v.beautified theories/Model/ArgsInst.required_vo: theories/Model/ArgsInst.v theories/Base/Sx.vo theories/Model/ArgTypes.vo theories/Model/Args.vo theories/Gen/C01ArgTables.vo
+theories/Model/ArgsInst.vio: theories/Model/ArgsInst.v theories/Base/Sx.vio theories/Model/ArgTypes.vio theories/Model/Args.vio theories/Gen/C01ArgTables.vio
+theories/Model/ArgsInst.vos theories/Model/ArgsInst.vok theories/Model/ArgsInst.required_vos: theories/Model/ArgsInst.v theories/Base/Sx.vos theories/Model/ArgTypes.vos theories/Model/Args.vos theories/Gen/C01ArgTables.vos
 theories/Model/Client.vo theories/Model/Client.glob theories/Model/Client.v.beautified theories/Model/Client.required_vo: theories/Model/Client.v 
 theories/Model/Client.vio: theories/Model/Client.v 
 theories/Model/Client.vos theories/Model/Client.vok theories/Model/Client.required_vos: theories/Model/Client.v 
@@ -37,6 +46,9 @@ theories/Model/CompilerCache.vos theories/Model/CompilerCache.vok theories/Model
 theories/Model/Crc32.vo theories/Model/Crc32.glob theories/Model/Crc32.v.beautified theories/Model/Crc32.required_vo: theories/Model/Crc32.v 
 theories/Model/Crc32.vio: theories/Model/Crc32.v 
 theories/Model/Crc32.vos theories/Model/Crc32.vok theories/Model/Crc32.required_vos: theories/Model/Crc32.v 
+theories/Model/DepInfo.vo theories/Model/DepInfo.glob theories/Model/DepInfo.v.beautified theories/Model/DepInfo.required_vo: theories/Model/DepInfo.v theories/Base/Sx.vo theories/Model/RustPath.vo
+theories/Model/DepInfo.vio: theories/Model/DepInfo.v theories/Base/Sx.vio theories/Model/RustPath.vio
+theories/Model/DepInfo.vos theories/Model/DepInfo.vok theories/Model/DepInfo.required_vos: theories/Model/DepInfo.v theories/Base/Sx.vos theories/Model/RustPath.vos
 theories/Model/DiskCache.vo theories/Model/DiskCache.glob theories/Model/DiskCache.v.beautified theories/Model/DiskCache.required_vo: theories/Model/DiskCache.v theories/Base/Sx.vo theories/Model/Lru.vo
 theories/Model/DiskCache.vio: theories/Model/DiskCache.v theories/Base/Sx.vio theories/Model/Lru.vio
 theories/Model/DiskCache.vos theories/Model/DiskCache.vok theories/Model/DiskCache.required_vos: theories/Model/DiskCache.v theories/Base/Sx.vos theories/Model/Lru.vos
@@ -67,15 +79,33 @@ theories/Model/Jobserver.vos theories/Model/Jobserver.vok theories/Model/Jobserv
 theories/Model/KeyEnc.vo theories/Model/KeyEnc.glob theories/Model/KeyEnc.v.beautified theories/Model/KeyEnc.required_vo: theories/Model/KeyEnc.v theories/Base/Sx.vo
 theories/Model/KeyEnc.vio: theories/Model/KeyEnc.v theories/Base/Sx.vio
 theories/Model/KeyEnc.vos theories/Model/KeyEnc.vok theories/Model/KeyEnc.required_vos: theories/Model/KeyEnc.v theories/Base/Sx.vos
+theories/Model/LineMarker.vo theories/Model/LineMarker.glob theories/Model/LineMarker.v.beautified theories/Model/LineMarker.required_vo: theories/Model/LineMarker.v theories/Base/Sx.vo theories/Gen/C04Consts.vo theories/Model/PpPaths.vo theories/Model/TimeMacro.vo theories/Model/PpCache.vo
+theories/Model/LineMarker.vio: theories/Model/LineMarker.v theories/Base/Sx.vio theories/Gen/C04Consts.vio theories/Model/PpPaths.vio theories/Model/TimeMacro.vio theories/Model/PpCache.vio
+theories/Model/LineMarker.vos theories/Model/LineMarker.vok theories/Model/LineMarker.required_vos: theories/Model/LineMarker.v theories/Base/Sx.vos theories/Gen/C04Consts.vos theories/Model/PpPaths.vos theories/Model/TimeMacro.vos theories/Model/PpCache.vos
 theories/Model/Lru.vo theories/Model/Lru.glob theories/Model/Lru.v.beautified theories/Model/Lru.required_vo: theories/Model/Lru.v theories/Base/Sx.vo
 theories/Model/Lru.vio: theories/Model/Lru.v theories/Base/Sx.vio
 theories/Model/Lru.vos theories/Model/Lru.vok theories/Model/Lru.required_vos: theories/Model/Lru.v theories/Base/Sx.vos
-theories/Model/PpCache.vo theories/Model/PpCache.glob theories/Model/PpCache.v.beautified theories/Model/PpCache.required_vo: theories/Model/PpCache.v theories/Base/Sx.vo theories/Gen/C04Consts.vo theories/Model/TimeMacro.vo
-theories/Model/PpCache.vio: theories/Model/PpCache.v theories/Base/Sx.vio theories/Gen/C04Consts.vio theories/Model/TimeMacro.vio
-theories/Model/PpCache.vos theories/Model/PpCache.vok theories/Model/PpCache.required_vos: theories/Model/PpCache.v theories/Base/Sx.vos theories/Gen/C04Consts.vos theories/Model/TimeMacro.vos
+theories/Model/Paths.vo theories/Model/Paths.glob theories/Model/Paths.v.beautified theories/Model/Paths.required_vo: theories/Model/Paths.v theories/Base/Sx.vo
+theories/Model/Paths.vio: theories/Model/Paths.v theories/Base/Sx.vio
+theories/Model/Paths.vos theories/Model/Paths.vok theories/Model/Paths.required_vos: theories/Model/Paths.v theories/Base/Sx.vos
+theories/Model/PpCache.vo theories/Model/PpCache.glob theories/Model/PpCache.v.beautified theories/Model/PpCache.required_vo: theories/Model/PpCache.v theories/Base/Sx.vo theories/Gen/C04Consts.vo theories/Model/PpPaths.vo theories/Model/TimeMacro.vo
+theories/Model/PpCache.vio: theories/Model/PpCache.v theories/Base/Sx.vio theories/Gen/C04Consts.vio theories/Model/PpPaths.vio theories/Model/TimeMacro.vio
+theories/Model/PpCache.vos theories/Model/PpCache.vok theories/Model/PpCache.required_vos: theories/Model/PpCache.v theories/Base/Sx.vos theories/Gen/C04Consts.vos theories/Model/PpPaths.vos theories/Model/TimeMacro.vos
+theories/Model/PpPaths.vo theories/Model/PpPaths.glob theories/Model/PpPaths.v.beautified theories/Model/PpPaths.required_vo: theories/Model/PpPaths.v theories/Base/Sx.vo
+theories/Model/PpPaths.vio: theories/Model/PpPaths.v theories/Base/Sx.vio
+theories/Model/PpPaths.vos theories/Model/PpPaths.vok theories/Model/PpPaths.required_vos: theories/Model/PpPaths.v theories/Base/Sx.vos
+theories/Model/ReqSM.vo theories/Model/ReqSM.glob theories/Model/ReqSM.v.beautified theories/Model/ReqSM.required_vo: theories/Model/ReqSM.v theories/Base/Sx.vo theories/Model/Stats.vo
+theories/Model/ReqSM.vio: theories/Model/ReqSM.v theories/Base/Sx.vio theories/Model/Stats.vio
+theories/Model/ReqSM.vos theories/Model/ReqSM.vok theories/Model/ReqSM.required_vos: theories/Model/ReqSM.v theories/Base/Sx.vos theories/Model/Stats.vos
 theories/Model/RoCache.vo theories/Model/RoCache.glob theories/Model/RoCache.v.beautified theories/Model/RoCache.required_vo: theories/Model/RoCache.v theories/Base/Sx.vo theories/Model/Lru.vo
 theories/Model/RoCache.vio: theories/Model/RoCache.v theories/Base/Sx.vio theories/Model/Lru.vio
 theories/Model/RoCache.vos theories/Model/RoCache.vok theories/Model/RoCache.required_vos: theories/Model/RoCache.v theories/Base/Sx.vos theories/Model/Lru.vos
+theories/Model/RustArgs.vo theories/Model/RustArgs.glob theories/Model/RustArgs.v.beautified theories/Model/RustArgs.required_vo: theories/Model/RustArgs.v theories/Base/Sx.vo theories/Model/RustPath.vo theories/Gen/C05ArgTable.vo
+theories/Model/RustArgs.vio: theories/Model/RustArgs.v theories/Base/Sx.vio theories/Model/RustPath.vio theories/Gen/C05ArgTable.vio
+theories/Model/RustArgs.vos theories/Model/RustArgs.vok theories/Model/RustArgs.required_vos: theories/Model/RustArgs.v theories/Base/Sx.vos theories/Model/RustPath.vos theories/Gen/C05ArgTable.vos
+theories/Model/RustKey.vo theories/Model/RustKey.glob theories/Model/RustKey.v.beautified theories/Model/RustKey.required_vo: theories/Model/RustKey.v theories/Base/Sx.vo theories/Model/RustPath.vo theories/Model/DepInfo.vo theories/Model/RustArgs.vo theories/Gen/C05HashSpec.vo
+theories/Model/RustKey.vio: theories/Model/RustKey.v theories/Base/Sx.vio theories/Model/RustPath.vio theories/Model/DepInfo.vio theories/Model/RustArgs.vio theories/Gen/C05HashSpec.vio
+theories/Model/RustKey.vos theories/Model/RustKey.vok theories/Model/RustKey.required_vos: theories/Model/RustKey.v theories/Base/Sx.vos theories/Model/RustPath.vos theories/Model/DepInfo.vos theories/Model/RustArgs.vos theories/Gen/C05HashSpec.vos
 theories/Model/RustPath.vo theories/Model/RustPath.glob theories/Model/RustPath.v.beautified theories/Model/RustPath.required_vo: theories/Model/RustPath.v theories/Base/Sx.vo
 theories/Model/RustPath.vio: theories/Model/RustPath.v theories/Base/Sx.vio
 theories/Model/RustPath.vos theories/Model/RustPath.vok theories/Model/RustPath.required_vos: theories/Model/RustPath.v theories/Base/Sx.vos
@@ -88,6 +118,9 @@ theories/Model/ServerLife.vos theories/Model/ServerLife.vok theories/Model/Serve
 theories/Model/Startup.vo theories/Model/Startup.glob theories/Model/Startup.v.beautified theories/Model/Startup.required_vo: theories/Model/Startup.v 
 theories/Model/Startup.vio: theories/Model/Startup.v 
 theories/Model/Startup.vos theories/Model/Startup.vok theories/Model/Startup.required_vos: theories/Model/Startup.v 
+theories/Model/Stats.vo theories/Model/Stats.glob theories/Model/Stats.v.beautified theories/Model/Stats.required_vo: theories/Model/Stats.v 
+theories/Model/Stats.vio: theories/Model/Stats.v 
+theories/Model/Stats.vos theories/Model/Stats.vok theories/Model/Stats.required_vos: theories/Model/Stats.v 
 theories/Model/TcCache.vo theories/Model/TcCache.glob theories/Model/TcCache.v.beautified theories/Model/TcCache.required_vo: theories/Model/TcCache.v theories/Base/Sx.vo theories/Model/Lru.vo
 theories/Model/TcCache.vio: theories/Model/TcCache.v theories/Base/Sx.vio theories/Model/Lru.vio
 theories/Model/TcCache.vos theories/Model/TcCache.vok theories/Model/TcCache.required_vos: theories/Model/TcCache.v theories/Base/Sx.vos theories/Model/Lru.vos
@@ -97,57 +130,180 @@ theories/Model/TimeMacro.vos theories/Model/TimeMacro.vok theories/Model/TimeMac
 theories/Model/Zip.vo theories/Model/Zip.glob theories/Model/Zip.v.beautified theories/Model/Zip.required_vo: theories/Model/Zip.v theories/Model/Crc32.vo
 theories/Model/Zip.vio: theories/Model/Zip.v theories/Model/Crc32.vio
 theories/Model/Zip.vos theories/Model/Zip.vok theories/Model/Zip.required_vos: theories/Model/Zip.v theories/Model/Crc32.vos
+theories/Proofs/ArgTables.vo theories/Proofs/ArgTables.glob theories/Proofs/ArgTables.v.beautified theories/Proofs/ArgTables.required_vo: theories/Proofs/ArgTables.v theories/Base/Sx.vo theories/Model/ArgTypes.vo theories/Model/Args.vo theories/Gen/C01ArgTables.vo theories/Model/ArgsInst.vo theories/Proofs/Args.vo
+theories/Proofs/ArgTables.vio: theories/Proofs/ArgTables.v theories/Base/Sx.vio theories/Model/ArgTypes.vio theories/Model/Args.vio theories/Gen/C01ArgTables.vio theories/Model/ArgsInst.vio theories/Proofs/Args.vio
+theories/Proofs/ArgTables.vos theories/Proofs/ArgTables.vok theories/Proofs/ArgTables.required_vos: theories/Proofs/ArgTables.v theories/Base/Sx.vos theories/Model/ArgTypes.vos theories/Model/Args.vos theories/Gen/C01ArgTables.vos theories/Model/ArgsInst.vos theories/Proofs/Args.vos
+theories/Proofs/Args.vo theories/Proofs/Args.glob theories/Proofs/Args.v.beautified theories/Proofs/Args.required_vo: theories/Proofs/Args.v theories/Base/Sx.vo theories/Model/ArgTypes.vo theories/Model/Args.vo
+theories/Proofs/Args.vio: theories/Proofs/Args.v theories/Base/Sx.vio theories/Model/ArgTypes.vio theories/Model/Args.vio
+theories/Proofs/Args.vos theories/Proofs/Args.vok theories/Proofs/Args.required_vos: theories/Proofs/Args.v theories/Base/Sx.vos theories/Model/ArgTypes.vos theories/Model/Args.vos
 theories/Proofs/Client.vo theories/Proofs/Client.glob theories/Proofs/Client.v.beautified theories/Proofs/Client.required_vo: theories/Proofs/Client.v theories/Model/Client.vo
 theories/Proofs/Client.vio: theories/Proofs/Client.v theories/Model/Client.vio
 theories/Proofs/Client.vos theories/Proofs/Client.vok theories/Proofs/Client.required_vos: theories/Proofs/Client.v theories/Model/Client.vos
 theories/Proofs/CompilerCache.vo theories/Proofs/CompilerCache.glob theories/Proofs/CompilerCache.v.beautified theories/Proofs/CompilerCache.required_vo: theories/Proofs/CompilerCache.v theories/Model/CompilerCache.vo
 theories/Proofs/CompilerCache.vio: theories/Proofs/CompilerCache.v theories/Model/CompilerCache.vio
 theories/Proofs/CompilerCache.vos theories/Proofs/CompilerCache.vok theories/Proofs/CompilerCache.required_vos: theories/Proofs/CompilerCache.v theories/Model/CompilerCache.vos
+theories/Proofs/Crc32.vo theories/Proofs/Crc32.glob theories/Proofs/Crc32.v.beautified theories/Proofs/Crc32.required_vo: theories/Proofs/Crc32.v theories/Model/Crc32.vo
+theories/Proofs/Crc32.vio: theories/Proofs/Crc32.v theories/Model/Crc32.vio
+theories/Proofs/Crc32.vos theories/Proofs/Crc32.vok theories/Proofs/Crc32.required_vos: theories/Proofs/Crc32.v theories/Model/Crc32.vos
+theories/Proofs/DepInfo.vo theories/Proofs/DepInfo.glob theories/Proofs/DepInfo.v.beautified theories/Proofs/DepInfo.required_vo: theories/Proofs/DepInfo.v theories/Base/Sx.vo theories/Model/RustPath.vo theories/Model/DepInfo.vo
+theories/Proofs/DepInfo.vio: theories/Proofs/DepInfo.v theories/Base/Sx.vio theories/Model/RustPath.vio theories/Model/DepInfo.vio
+theories/Proofs/DepInfo.vos theories/Proofs/DepInfo.vok theories/Proofs/DepInfo.required_vos: theories/Proofs/DepInfo.v theories/Base/Sx.vos theories/Model/RustPath.vos theories/Model/DepInfo.vos
+theories/Proofs/DiskCache.vo theories/Proofs/DiskCache.glob theories/Proofs/DiskCache.v.beautified theories/Proofs/DiskCache.required_vo: theories/Proofs/DiskCache.v theories/Base/Sx.vo theories/Model/Lru.vo theories/Model/DiskCache.vo theories/Proofs/Lru.vo
+theories/Proofs/DiskCache.vio: theories/Proofs/DiskCache.v theories/Base/Sx.vio theories/Model/Lru.vio theories/Model/DiskCache.vio theories/Proofs/Lru.vio
+theories/Proofs/DiskCache.vos theories/Proofs/DiskCache.vok theories/Proofs/DiskCache.required_vos: theories/Proofs/DiskCache.v theories/Base/Sx.vos theories/Model/Lru.vos theories/Model/DiskCache.vos theories/Proofs/Lru.vos
+theories/Proofs/DiskConfig.vo theories/Proofs/DiskConfig.glob theories/Proofs/DiskConfig.v.beautified theories/Proofs/DiskConfig.required_vo: theories/Proofs/DiskConfig.v theories/Base/Sx.vo theories/Model/Lru.vo theories/Model/RoCache.vo theories/Model/DiskConfig.vo theories/Proofs/RoCache.vo
+theories/Proofs/DiskConfig.vio: theories/Proofs/DiskConfig.v theories/Base/Sx.vio theories/Model/Lru.vio theories/Model/RoCache.vio theories/Model/DiskConfig.vio theories/Proofs/RoCache.vio
+theories/Proofs/DiskConfig.vos theories/Proofs/DiskConfig.vok theories/Proofs/DiskConfig.required_vos: theories/Proofs/DiskConfig.v theories/Base/Sx.vos theories/Model/Lru.vos theories/Model/RoCache.vos theories/Model/DiskConfig.vos theories/Proofs/RoCache.vos
+theories/Proofs/DistArgs.vo theories/Proofs/DistArgs.glob theories/Proofs/DistArgs.v.beautified theories/Proofs/DistArgs.required_vo: theories/Proofs/DistArgs.v theories/Base/Sx.vo theories/Model/DistArgs.vo
+theories/Proofs/DistArgs.vio: theories/Proofs/DistArgs.v theories/Base/Sx.vio theories/Model/DistArgs.vio
+theories/Proofs/DistArgs.vos theories/Proofs/DistArgs.vok theories/Proofs/DistArgs.required_vos: theories/Proofs/DistArgs.v theories/Base/Sx.vos theories/Model/DistArgs.vos
+theories/Proofs/DistFallback.vo theories/Proofs/DistFallback.glob theories/Proofs/DistFallback.v.beautified theories/Proofs/DistFallback.required_vo: theories/Proofs/DistFallback.v theories/Model/DistStatus.vo theories/Model/DistFallback.vo theories/Proofs/DistStatus.vo
+theories/Proofs/DistFallback.vio: theories/Proofs/DistFallback.v theories/Model/DistStatus.vio theories/Model/DistFallback.vio theories/Proofs/DistStatus.vio
+theories/Proofs/DistFallback.vos theories/Proofs/DistFallback.vok theories/Proofs/DistFallback.required_vos: theories/Proofs/DistFallback.v theories/Model/DistStatus.vos theories/Model/DistFallback.vos theories/Proofs/DistStatus.vos
+theories/Proofs/DistStatus.vo theories/Proofs/DistStatus.glob theories/Proofs/DistStatus.v.beautified theories/Proofs/DistStatus.required_vo: theories/Proofs/DistStatus.v theories/Model/DistStatus.vo
+theories/Proofs/DistStatus.vio: theories/Proofs/DistStatus.v theories/Model/DistStatus.vio
+theories/Proofs/DistStatus.vos theories/Proofs/DistStatus.vok theories/Proofs/DistStatus.required_vos: theories/Proofs/DistStatus.v theories/Model/DistStatus.vos
+theories/Proofs/Extract.vo theories/Proofs/Extract.glob theories/Proofs/Extract.v.beautified theories/Proofs/Extract.required_vo: theories/Proofs/Extract.v theories/Base/Sx.vo theories/Model/FsModel.vo theories/Model/Extract.vo theories/Proofs/FsModel.vo
+theories/Proofs/Extract.vio: theories/Proofs/Extract.v theories/Base/Sx.vio theories/Model/FsModel.vio theories/Model/Extract.vio theories/Proofs/FsModel.vio
+theories/Proofs/Extract.vos theories/Proofs/Extract.vok theories/Proofs/Extract.required_vos: theories/Proofs/Extract.v theories/Base/Sx.vos theories/Model/FsModel.vos theories/Model/Extract.vos theories/Proofs/FsModel.vos
+theories/Proofs/FsModel.vo theories/Proofs/FsModel.glob theories/Proofs/FsModel.v.beautified theories/Proofs/FsModel.required_vo: theories/Proofs/FsModel.v theories/Base/Sx.vo theories/Model/FsModel.vo
+theories/Proofs/FsModel.vio: theories/Proofs/FsModel.v theories/Base/Sx.vio theories/Model/FsModel.vio
+theories/Proofs/FsModel.vos theories/Proofs/FsModel.vok theories/Proofs/FsModel.required_vos: theories/Proofs/FsModel.v theories/Base/Sx.vos theories/Model/FsModel.vos
+theories/Proofs/HitModel.vo theories/Proofs/HitModel.glob theories/Proofs/HitModel.v.beautified theories/Proofs/HitModel.required_vo: theories/Proofs/HitModel.v theories/Base/Sx.vo theories/Model/Lru.vo theories/Proofs/Lru.vo theories/Model/HitModel.vo
+theories/Proofs/HitModel.vio: theories/Proofs/HitModel.v theories/Base/Sx.vio theories/Model/Lru.vio theories/Proofs/Lru.vio theories/Model/HitModel.vio
+theories/Proofs/HitModel.vos theories/Proofs/HitModel.vok theories/Proofs/HitModel.required_vos: theories/Proofs/HitModel.v theories/Base/Sx.vos theories/Model/Lru.vos theories/Proofs/Lru.vos theories/Model/HitModel.vos
+theories/Proofs/Jobserver.vo theories/Proofs/Jobserver.glob theories/Proofs/Jobserver.v.beautified theories/Proofs/Jobserver.required_vo: theories/Proofs/Jobserver.v theories/Model/Jobserver.vo
+theories/Proofs/Jobserver.vio: theories/Proofs/Jobserver.v theories/Model/Jobserver.vio
+theories/Proofs/Jobserver.vos theories/Proofs/Jobserver.vok theories/Proofs/Jobserver.required_vos: theories/Proofs/Jobserver.v theories/Model/Jobserver.vos
+theories/Proofs/KeyEnc.vo theories/Proofs/KeyEnc.glob theories/Proofs/KeyEnc.v.beautified theories/Proofs/KeyEnc.required_vo: theories/Proofs/KeyEnc.v theories/Base/Sx.vo theories/Model/KeyEnc.vo
+theories/Proofs/KeyEnc.vio: theories/Proofs/KeyEnc.v theories/Base/Sx.vio theories/Model/KeyEnc.vio
+theories/Proofs/KeyEnc.vos theories/Proofs/KeyEnc.vok theories/Proofs/KeyEnc.required_vos: theories/Proofs/KeyEnc.v theories/Base/Sx.vos theories/Model/KeyEnc.vos
+theories/Proofs/KeyEncSpec.vo theories/Proofs/KeyEncSpec.glob theories/Proofs/KeyEncSpec.v.beautified theories/Proofs/KeyEncSpec.required_vo: theories/Proofs/KeyEncSpec.v theories/Base/Sx.vo theories/Model/KeyEnc.vo theories/Proofs/KeyEnc.vo theories/Gen/C02HashSpec.vo theories/Gen/C02HashSpec_ok.vo
+theories/Proofs/KeyEncSpec.vio: theories/Proofs/KeyEncSpec.v theories/Base/Sx.vio theories/Model/KeyEnc.vio theories/Proofs/KeyEnc.vio theories/Gen/C02HashSpec.vio theories/Gen/C02HashSpec_ok.vio
+theories/Proofs/KeyEncSpec.vos theories/Proofs/KeyEncSpec.vok theories/Proofs/KeyEncSpec.required_vos: theories/Proofs/KeyEncSpec.v theories/Base/Sx.vos theories/Model/KeyEnc.vos theories/Proofs/KeyEnc.vos theories/Gen/C02HashSpec.vos theories/Gen/C02HashSpec_ok.vos
+theories/Proofs/LineMarker.vo theories/Proofs/LineMarker.glob theories/Proofs/LineMarker.v.beautified theories/Proofs/LineMarker.required_vo: theories/Proofs/LineMarker.v theories/Base/Sx.vo theories/Gen/C04Consts.vo theories/Model/PpPaths.vo theories/Model/TimeMacro.vo theories/Model/PpCache.vo theories/Model/LineMarker.vo theories/Proofs/TimeMacro.vo
+theories/Proofs/LineMarker.vio: theories/Proofs/LineMarker.v theories/Base/Sx.vio theories/Gen/C04Consts.vio theories/Model/PpPaths.vio theories/Model/TimeMacro.vio theories/Model/PpCache.vio theories/Model/LineMarker.vio theories/Proofs/TimeMacro.vio
+theories/Proofs/LineMarker.vos theories/Proofs/LineMarker.vok theories/Proofs/LineMarker.required_vos: theories/Proofs/LineMarker.v theories/Base/Sx.vos theories/Gen/C04Consts.vos theories/Model/PpPaths.vos theories/Model/TimeMacro.vos theories/Model/PpCache.vos theories/Model/LineMarker.vos theories/Proofs/TimeMacro.vos
 theories/Proofs/Lru.vo theories/Proofs/Lru.glob theories/Proofs/Lru.v.beautified theories/Proofs/Lru.required_vo: theories/Proofs/Lru.v theories/Base/Sx.vo theories/Model/Lru.vo
 theories/Proofs/Lru.vio: theories/Proofs/Lru.v theories/Base/Sx.vio theories/Model/Lru.vio
 theories/Proofs/Lru.vos theories/Proofs/Lru.vok theories/Proofs/Lru.required_vos: theories/Proofs/Lru.v theories/Base/Sx.vos theories/Model/Lru.vos
+theories/Proofs/Paths.vo theories/Proofs/Paths.glob theories/Proofs/Paths.v.beautified theories/Proofs/Paths.required_vo: theories/Proofs/Paths.v theories/Base/Sx.vo theories/Model/Paths.vo
+theories/Proofs/Paths.vio: theories/Proofs/Paths.v theories/Base/Sx.vio theories/Model/Paths.vio
+theories/Proofs/Paths.vos theories/Proofs/Paths.vok theories/Proofs/Paths.required_vos: theories/Proofs/Paths.v theories/Base/Sx.vos theories/Model/Paths.vos
+theories/Proofs/PpCache.vo theories/Proofs/PpCache.glob theories/Proofs/PpCache.v.beautified theories/Proofs/PpCache.required_vo: theories/Proofs/PpCache.v theories/Base/Sx.vo theories/Gen/C04Consts.vo theories/Model/TimeMacro.vo theories/Model/PpCache.vo theories/Proofs/TimeMacro.vo
+theories/Proofs/PpCache.vio: theories/Proofs/PpCache.v theories/Base/Sx.vio theories/Gen/C04Consts.vio theories/Model/TimeMacro.vio theories/Model/PpCache.vio theories/Proofs/TimeMacro.vio
+theories/Proofs/PpCache.vos theories/Proofs/PpCache.vok theories/Proofs/PpCache.required_vos: theories/Proofs/PpCache.v theories/Base/Sx.vos theories/Gen/C04Consts.vos theories/Model/TimeMacro.vos theories/Model/PpCache.vos theories/Proofs/TimeMacro.vos
+theories/Proofs/ReqSM.vo theories/Proofs/ReqSM.glob theories/Proofs/ReqSM.v.beautified theories/Proofs/ReqSM.required_vo: theories/Proofs/ReqSM.v theories/Base/Sx.vo theories/Model/Stats.vo theories/Model/ReqSM.vo
+theories/Proofs/ReqSM.vio: theories/Proofs/ReqSM.v theories/Base/Sx.vio theories/Model/Stats.vio theories/Model/ReqSM.vio
+theories/Proofs/ReqSM.vos theories/Proofs/ReqSM.vok theories/Proofs/ReqSM.required_vos: theories/Proofs/ReqSM.v theories/Base/Sx.vos theories/Model/Stats.vos theories/Model/ReqSM.vos
+theories/Proofs/RoCache.vo theories/Proofs/RoCache.glob theories/Proofs/RoCache.v.beautified theories/Proofs/RoCache.required_vo: theories/Proofs/RoCache.v theories/Base/Sx.vo theories/Model/Lru.vo theories/Model/RoCache.vo
+theories/Proofs/RoCache.vio: theories/Proofs/RoCache.v theories/Base/Sx.vio theories/Model/Lru.vio theories/Model/RoCache.vio
+theories/Proofs/RoCache.vos theories/Proofs/RoCache.vok theories/Proofs/RoCache.required_vos: theories/Proofs/RoCache.v theories/Base/Sx.vos theories/Model/Lru.vos theories/Model/RoCache.vos
+theories/Proofs/RustArgs.vo theories/Proofs/RustArgs.glob theories/Proofs/RustArgs.v.beautified theories/Proofs/RustArgs.required_vo: theories/Proofs/RustArgs.v theories/Base/Sx.vo theories/Model/RustPath.vo theories/Model/RustArgs.vo theories/Gen/C05ArgTable.vo
+theories/Proofs/RustArgs.vio: theories/Proofs/RustArgs.v theories/Base/Sx.vio theories/Model/RustPath.vio theories/Model/RustArgs.vio theories/Gen/C05ArgTable.vio
+theories/Proofs/RustArgs.vos theories/Proofs/RustArgs.vok theories/Proofs/RustArgs.required_vos: theories/Proofs/RustArgs.v theories/Base/Sx.vos theories/Model/RustPath.vos theories/Model/RustArgs.vos theories/Gen/C05ArgTable.vos
+theories/Proofs/RustKey.vo theories/Proofs/RustKey.glob theories/Proofs/RustKey.v.beautified theories/Proofs/RustKey.required_vo: theories/Proofs/RustKey.v theories/Base/Sx.vo theories/Model/RustPath.vo theories/Model/DepInfo.vo theories/Model/RustArgs.vo theories/Model/RustKey.vo theories/Gen/C05HashSpec.vo
+theories/Proofs/RustKey.vio: theories/Proofs/RustKey.v theories/Base/Sx.vio theories/Model/RustPath.vio theories/Model/DepInfo.vio theories/Model/RustArgs.vio theories/Model/RustKey.vio theories/Gen/C05HashSpec.vio
+theories/Proofs/RustKey.vos theories/Proofs/RustKey.vok theories/Proofs/RustKey.required_vos: theories/Proofs/RustKey.v theories/Base/Sx.vos theories/Model/RustPath.vos theories/Model/DepInfo.vos theories/Model/RustArgs.vos theories/Model/RustKey.vos theories/Gen/C05HashSpec.vos
 theories/Proofs/Scheduler.vo theories/Proofs/Scheduler.glob theories/Proofs/Scheduler.v.beautified theories/Proofs/Scheduler.required_vo: theories/Proofs/Scheduler.v theories/Base/Sx.vo theories/Gen/C18Consts.vo theories/Model/Scheduler.vo
 theories/Proofs/Scheduler.vio: theories/Proofs/Scheduler.v theories/Base/Sx.vio theories/Gen/C18Consts.vio theories/Model/Scheduler.vio
 theories/Proofs/Scheduler.vos theories/Proofs/Scheduler.vok theories/Proofs/Scheduler.required_vos: theories/Proofs/Scheduler.v theories/Base/Sx.vos theories/Gen/C18Consts.vos theories/Model/Scheduler.vos
+theories/Proofs/ServerLife.vo theories/Proofs/ServerLife.glob theories/Proofs/ServerLife.v.beautified theories/Proofs/ServerLife.required_vo: theories/Proofs/ServerLife.v theories/Model/ServerLife.vo
+theories/Proofs/ServerLife.vio: theories/Proofs/ServerLife.v theories/Model/ServerLife.vio
+theories/Proofs/ServerLife.vos theories/Proofs/ServerLife.vok theories/Proofs/ServerLife.required_vos: theories/Proofs/ServerLife.v theories/Model/ServerLife.vos
+theories/Proofs/Startup.vo theories/Proofs/Startup.glob theories/Proofs/Startup.v.beautified theories/Proofs/Startup.required_vo: theories/Proofs/Startup.v theories/Model/Startup.vo
+theories/Proofs/Startup.vio: theories/Proofs/Startup.v theories/Model/Startup.vio
+theories/Proofs/Startup.vos theories/Proofs/Startup.vok theories/Proofs/Startup.required_vos: theories/Proofs/Startup.v theories/Model/Startup.vos
+theories/Proofs/Stats.vo theories/Proofs/Stats.glob theories/Proofs/Stats.v.beautified theories/Proofs/Stats.required_vo: theories/Proofs/Stats.v theories/Model/Stats.vo
+theories/Proofs/Stats.vio: theories/Proofs/Stats.v theories/Model/Stats.vio
+theories/Proofs/Stats.vos theories/Proofs/Stats.vok theories/Proofs/Stats.required_vos: theories/Proofs/Stats.v theories/Model/Stats.vos
 theories/Proofs/TcCache.vo theories/Proofs/TcCache.glob theories/Proofs/TcCache.v.beautified theories/Proofs/TcCache.required_vo: theories/Proofs/TcCache.v theories/Base/Sx.vo theories/Model/Lru.vo theories/Model/TcCache.vo
 theories/Proofs/TcCache.vio: theories/Proofs/TcCache.v theories/Base/Sx.vio theories/Model/Lru.vio theories/Model/TcCache.vio
 theories/Proofs/TcCache.vos theories/Proofs/TcCache.vok theories/Proofs/TcCache.required_vos: theories/Proofs/TcCache.v theories/Base/Sx.vos theories/Model/Lru.vos theories/Model/TcCache.vos
-theories/Properties/C02.vo theories/Properties/C02.glob theories/Properties/C02.v.beautified theories/Properties/C02.required_vo: theories/Properties/C02.v theories/Model/KeyEnc.vo theories/Gen/C02HashSpec.vo
-theories/Properties/C02.vio: theories/Properties/C02.v theories/Model/KeyEnc.vio theories/Gen/C02HashSpec.vio
-theories/Properties/C02.vos theories/Properties/C02.vok theories/Properties/C02.required_vos: theories/Properties/C02.v theories/Model/KeyEnc.vos theories/Gen/C02HashSpec.vos
-theories/Properties/C04.vo theories/Properties/C04.glob theories/Properties/C04.v.beautified theories/Properties/C04.required_vo: theories/Properties/C04.v 
-theories/Properties/C04.vio: theories/Properties/C04.v 
-theories/Properties/C04.vos theories/Properties/C04.vok theories/Properties/C04.required_vos: theories/Properties/C04.v 
-theories/Properties/C06.vo theories/Properties/C06.glob theories/Properties/C06.v.beautified theories/Properties/C06.required_vo: theories/Properties/C06.v theories/Model/DiskCache.vo
-theories/Properties/C06.vio: theories/Properties/C06.v theories/Model/DiskCache.vio
-theories/Properties/C06.vos theories/Properties/C06.vok theories/Properties/C06.required_vos: theories/Properties/C06.v theories/Model/DiskCache.vos
-theories/Properties/C07.vo theories/Properties/C07.glob theories/Properties/C07.v.beautified theories/Properties/C07.required_vo: theories/Properties/C07.v 
-theories/Properties/C07.vio: theories/Properties/C07.v 
-theories/Properties/C07.vos theories/Properties/C07.vok theories/Properties/C07.required_vos: theories/Properties/C07.v 
-theories/Properties/C11.vo theories/Properties/C11.glob theories/Properties/C11.v.beautified theories/Properties/C11.required_vo: theories/Properties/C11.v theories/Model/Client.vo
-theories/Properties/C11.vio: theories/Properties/C11.v theories/Model/Client.vio
-theories/Properties/C11.vos theories/Properties/C11.vok theories/Properties/C11.required_vos: theories/Properties/C11.v theories/Model/Client.vos
-theories/Properties/C12.vo theories/Properties/C12.glob theories/Properties/C12.v.beautified theories/Properties/C12.required_vo: theories/Properties/C12.v 
-theories/Properties/C12.vio: theories/Properties/C12.v 
-theories/Properties/C12.vos theories/Properties/C12.vok theories/Properties/C12.required_vos: theories/Properties/C12.v 
-theories/Properties/C16.vo theories/Properties/C16.glob theories/Properties/C16.v.beautified theories/Properties/C16.required_vo: theories/Properties/C16.v 
-theories/Properties/C16.vio: theories/Properties/C16.v 
-theories/Properties/C16.vos theories/Properties/C16.vok theories/Properties/C16.required_vos: theories/Properties/C16.v 
-theories/Properties/C17.vo theories/Properties/C17.glob theories/Properties/C17.v.beautified theories/Properties/C17.required_vo: theories/Properties/C17.v theories/Base/Sx.vo theories/Model/Lru.vo theories/Model/TcCache.vo
-theories/Properties/C17.vio: theories/Properties/C17.v theories/Base/Sx.vio theories/Model/Lru.vio theories/Model/TcCache.vio
-theories/Properties/C17.vos theories/Properties/C17.vok theories/Properties/C17.required_vos: theories/Properties/C17.v theories/Base/Sx.vos theories/Model/Lru.vos theories/Model/TcCache.vos
-theories/Properties/C18.vo theories/Properties/C18.glob theories/Properties/C18.v.beautified theories/Properties/C18.required_vo: theories/Properties/C18.v theories/Model/Scheduler.vo
-theories/Properties/C18.vio: theories/Properties/C18.v theories/Model/Scheduler.vio
-theories/Properties/C18.vos theories/Properties/C18.vok theories/Properties/C18.required_vos: theories/Properties/C18.v theories/Model/Scheduler.vos
+theories/Proofs/TimeMacro.vo theories/Proofs/TimeMacro.glob theories/Proofs/TimeMacro.v.beautified theories/Proofs/TimeMacro.required_vo: theories/Proofs/TimeMacro.v theories/Base/Sx.vo theories/Gen/C04Consts.vo theories/Model/TimeMacro.vo
+theories/Proofs/TimeMacro.vio: theories/Proofs/TimeMacro.v theories/Base/Sx.vio theories/Gen/C04Consts.vio theories/Model/TimeMacro.vio
+theories/Proofs/TimeMacro.vos theories/Proofs/TimeMacro.vok theories/Proofs/TimeMacro.required_vos: theories/Proofs/TimeMacro.v theories/Base/Sx.vos theories/Gen/C04Consts.vos theories/Model/TimeMacro.vos
+theories/Proofs/Zip.vo theories/Proofs/Zip.glob theories/Proofs/Zip.v.beautified theories/Proofs/Zip.required_vo: theories/Proofs/Zip.v theories/Model/Crc32.vo theories/Model/Zip.vo theories/Proofs/Crc32.vo theories/Proofs/ZipBase.vo
+theories/Proofs/Zip.vio: theories/Proofs/Zip.v theories/Model/Crc32.vio theories/Model/Zip.vio theories/Proofs/Crc32.vio theories/Proofs/ZipBase.vio
+theories/Proofs/Zip.vos theories/Proofs/Zip.vok theories/Proofs/Zip.required_vos: theories/Proofs/Zip.v theories/Model/Crc32.vos theories/Model/Zip.vos theories/Proofs/Crc32.vos theories/Proofs/ZipBase.vos
+theories/Proofs/ZipBase.vo theories/Proofs/ZipBase.glob theories/Proofs/ZipBase.v.beautified theories/Proofs/ZipBase.required_vo: theories/Proofs/ZipBase.v theories/Model/Crc32.vo theories/Model/Zip.vo
+theories/Proofs/ZipBase.vio: theories/Proofs/ZipBase.v theories/Model/Crc32.vio theories/Model/Zip.vio
+theories/Proofs/ZipBase.vos theories/Proofs/ZipBase.vok theories/Proofs/ZipBase.required_vos: theories/Proofs/ZipBase.v theories/Model/Crc32.vos theories/Model/Zip.vos
+theories/Properties/C01.vo theories/Properties/C01.glob theories/Properties/C01.v.beautified theories/Properties/C01.required_vo: theories/Properties/C01.v theories/Base/Sx.vo theories/Model/ArgTypes.vo theories/Model/Args.vo theories/Gen/C01ArgTables.vo theories/Model/ArgsInst.vo theories/Proofs/Args.vo theories/Proofs/ArgTables.vo
+theories/Properties/C01.vio: theories/Properties/C01.v theories/Base/Sx.vio theories/Model/ArgTypes.vio theories/Model/Args.vio theories/Gen/C01ArgTables.vio theories/Model/ArgsInst.vio theories/Proofs/Args.vio theories/Proofs/ArgTables.vio
+theories/Properties/C01.vos theories/Properties/C01.vok theories/Properties/C01.required_vos: theories/Properties/C01.v theories/Base/Sx.vos theories/Model/ArgTypes.vos theories/Model/Args.vos theories/Gen/C01ArgTables.vos theories/Model/ArgsInst.vos theories/Proofs/Args.vos theories/Proofs/ArgTables.vos
+theories/Properties/C02.vo theories/Properties/C02.glob theories/Properties/C02.v.beautified theories/Properties/C02.required_vo: theories/Properties/C02.v theories/Base/Sx.vo theories/Model/KeyEnc.vo theories/Proofs/KeyEnc.vo theories/Proofs/KeyEncSpec.vo theories/Gen/C02HashSpec.vo theories/Gen/C02HashSpec_ok.vo
+theories/Properties/C02.vio: theories/Properties/C02.v theories/Base/Sx.vio theories/Model/KeyEnc.vio theories/Proofs/KeyEnc.vio theories/Proofs/KeyEncSpec.vio theories/Gen/C02HashSpec.vio theories/Gen/C02HashSpec_ok.vio
+theories/Properties/C02.vos theories/Properties/C02.vok theories/Properties/C02.required_vos: theories/Properties/C02.v theories/Base/Sx.vos theories/Model/KeyEnc.vos theories/Proofs/KeyEnc.vos theories/Proofs/KeyEncSpec.vos theories/Gen/C02HashSpec.vos theories/Gen/C02HashSpec_ok.vos
+theories/Properties/C03.vo theories/Properties/C03.glob theories/Properties/C03.v.beautified theories/Properties/C03.required_vo: theories/Properties/C03.v theories/Base/Sx.vo theories/Model/Lru.vo theories/Model/HitModel.vo theories/Proofs/Lru.vo theories/Proofs/HitModel.vo
+theories/Properties/C03.vio: theories/Properties/C03.v theories/Base/Sx.vio theories/Model/Lru.vio theories/Model/HitModel.vio theories/Proofs/Lru.vio theories/Proofs/HitModel.vio
+theories/Properties/C03.vos theories/Properties/C03.vok theories/Properties/C03.required_vos: theories/Properties/C03.v theories/Base/Sx.vos theories/Model/Lru.vos theories/Model/HitModel.vos theories/Proofs/Lru.vos theories/Proofs/HitModel.vos
+theories/Properties/C04.vo theories/Properties/C04.glob theories/Properties/C04.v.beautified theories/Properties/C04.required_vo: theories/Properties/C04.v theories/Base/Sx.vo theories/Gen/C04Consts.vo theories/Model/PpPaths.vo theories/Model/TimeMacro.vo theories/Model/PpCache.vo theories/Model/LineMarker.vo theories/Proofs/TimeMacro.vo theories/Proofs/PpCache.vo theories/Proofs/LineMarker.vo theories/Run/C04.vo
+theories/Properties/C04.vio: theories/Properties/C04.v theories/Base/Sx.vio theories/Gen/C04Consts.vio theories/Model/PpPaths.vio theories/Model/TimeMacro.vio theories/Model/PpCache.vio theories/Model/LineMarker.vio theories/Proofs/TimeMacro.vio theories/Proofs/PpCache.vio theories/Proofs/LineMarker.vio theories/Run/C04.vio
+theories/Properties/C04.vos theories/Properties/C04.vok theories/Properties/C04.required_vos: theories/Properties/C04.v theories/Base/Sx.vos theories/Gen/C04Consts.vos theories/Model/PpPaths.vos theories/Model/TimeMacro.vos theories/Model/PpCache.vos theories/Model/LineMarker.vos theories/Proofs/TimeMacro.vos theories/Proofs/PpCache.vos theories/Proofs/LineMarker.vos theories/Run/C04.vos
+theories/Properties/C05.vo theories/Properties/C05.glob theories/Properties/C05.v.beautified theories/Properties/C05.required_vo: theories/Properties/C05.v theories/Base/Sx.vo theories/Model/RustPath.vo theories/Model/DepInfo.vo theories/Model/RustArgs.vo theories/Model/RustKey.vo theories/Gen/C05HashSpec.vo theories/Gen/C05ArgTable.vo theories/Proofs/DepInfo.vo theories/Proofs/RustKey.vo theories/Proofs/RustArgs.vo
+theories/Properties/C05.vio: theories/Properties/C05.v theories/Base/Sx.vio theories/Model/RustPath.vio theories/Model/DepInfo.vio theories/Model/RustArgs.vio theories/Model/RustKey.vio theories/Gen/C05HashSpec.vio theories/Gen/C05ArgTable.vio theories/Proofs/DepInfo.vio theories/Proofs/RustKey.vio theories/Proofs/RustArgs.vio
+theories/Properties/C05.vos theories/Properties/C05.vok theories/Properties/C05.required_vos: theories/Properties/C05.v theories/Base/Sx.vos theories/Model/RustPath.vos theories/Model/DepInfo.vos theories/Model/RustArgs.vos theories/Model/RustKey.vos theories/Gen/C05HashSpec.vos theories/Gen/C05ArgTable.vos theories/Proofs/DepInfo.vos theories/Proofs/RustKey.vos theories/Proofs/RustArgs.vos
+theories/Properties/C06.vo theories/Properties/C06.glob theories/Properties/C06.v.beautified theories/Properties/C06.required_vo: theories/Properties/C06.v theories/Base/Sx.vo theories/Model/Lru.vo theories/Model/DiskCache.vo theories/Proofs/DiskCache.vo
+theories/Properties/C06.vio: theories/Properties/C06.v theories/Base/Sx.vio theories/Model/Lru.vio theories/Model/DiskCache.vio theories/Proofs/DiskCache.vio
+theories/Properties/C06.vos theories/Properties/C06.vok theories/Properties/C06.required_vos: theories/Properties/C06.v theories/Base/Sx.vos theories/Model/Lru.vos theories/Model/DiskCache.vos theories/Proofs/DiskCache.vos
+theories/Properties/C07.vo theories/Properties/C07.glob theories/Properties/C07.v.beautified theories/Properties/C07.required_vo: theories/Properties/C07.v theories/Base/Sx.vo theories/Model/Lru.vo theories/Proofs/Lru.vo
+theories/Properties/C07.vio: theories/Properties/C07.v theories/Base/Sx.vio theories/Model/Lru.vio theories/Proofs/Lru.vio
+theories/Properties/C07.vos theories/Properties/C07.vok theories/Properties/C07.required_vos: theories/Properties/C07.v theories/Base/Sx.vos theories/Model/Lru.vos theories/Proofs/Lru.vos
+theories/Properties/C08.vo theories/Properties/C08.glob theories/Properties/C08.v.beautified theories/Properties/C08.required_vo: theories/Properties/C08.v theories/Model/Crc32.vo theories/Model/Zip.vo theories/Proofs/Crc32.vo theories/Proofs/ZipBase.vo theories/Proofs/Zip.vo
+theories/Properties/C08.vio: theories/Properties/C08.v theories/Model/Crc32.vio theories/Model/Zip.vio theories/Proofs/Crc32.vio theories/Proofs/ZipBase.vio theories/Proofs/Zip.vio
+theories/Properties/C08.vos theories/Properties/C08.vok theories/Properties/C08.required_vos: theories/Properties/C08.v theories/Model/Crc32.vos theories/Model/Zip.vos theories/Proofs/Crc32.vos theories/Proofs/ZipBase.vos theories/Proofs/Zip.vos
+theories/Properties/C09.vo theories/Properties/C09.glob theories/Properties/C09.v.beautified theories/Properties/C09.required_vo: theories/Properties/C09.v theories/Base/Sx.vo theories/Model/Stats.vo theories/Model/ReqSM.vo theories/Proofs/ReqSM.vo
+theories/Properties/C09.vio: theories/Properties/C09.v theories/Base/Sx.vio theories/Model/Stats.vio theories/Model/ReqSM.vio theories/Proofs/ReqSM.vio
+theories/Properties/C09.vos theories/Properties/C09.vok theories/Properties/C09.required_vos: theories/Properties/C09.v theories/Base/Sx.vos theories/Model/Stats.vos theories/Model/ReqSM.vos theories/Proofs/ReqSM.vos
+theories/Properties/C10.vo theories/Properties/C10.glob theories/Properties/C10.v.beautified theories/Properties/C10.required_vo: theories/Properties/C10.v theories/Base/Sx.vo theories/Model/FsModel.vo theories/Model/Extract.vo theories/Proofs/FsModel.vo theories/Proofs/Extract.vo
+theories/Properties/C10.vio: theories/Properties/C10.v theories/Base/Sx.vio theories/Model/FsModel.vio theories/Model/Extract.vio theories/Proofs/FsModel.vio theories/Proofs/Extract.vio
+theories/Properties/C10.vos theories/Properties/C10.vok theories/Properties/C10.required_vos: theories/Properties/C10.v theories/Base/Sx.vos theories/Model/FsModel.vos theories/Model/Extract.vos theories/Proofs/FsModel.vos theories/Proofs/Extract.vos
+theories/Properties/C11.vo theories/Properties/C11.glob theories/Properties/C11.v.beautified theories/Properties/C11.required_vo: theories/Properties/C11.v theories/Model/Client.vo theories/Proofs/Client.vo
+theories/Properties/C11.vio: theories/Properties/C11.v theories/Model/Client.vio theories/Proofs/Client.vio
+theories/Properties/C11.vos theories/Properties/C11.vok theories/Properties/C11.required_vos: theories/Properties/C11.v theories/Model/Client.vos theories/Proofs/Client.vos
+theories/Properties/C12.vo theories/Properties/C12.glob theories/Properties/C12.v.beautified theories/Properties/C12.required_vo: theories/Properties/C12.v theories/Model/CompilerCache.vo theories/Proofs/CompilerCache.vo
+theories/Properties/C12.vio: theories/Properties/C12.v theories/Model/CompilerCache.vio theories/Proofs/CompilerCache.vio
+theories/Properties/C12.vos theories/Properties/C12.vok theories/Properties/C12.required_vos: theories/Properties/C12.v theories/Model/CompilerCache.vos theories/Proofs/CompilerCache.vos
+theories/Properties/C13.vo theories/Properties/C13.glob theories/Properties/C13.v.beautified theories/Properties/C13.required_vo: theories/Properties/C13.v theories/Base/Sx.vo theories/Model/DistStatus.vo theories/Model/DistFallback.vo theories/Model/DistArgs.vo theories/Proofs/DistStatus.vo theories/Proofs/DistFallback.vo theories/Proofs/DistArgs.vo
+theories/Properties/C13.vio: theories/Properties/C13.v theories/Base/Sx.vio theories/Model/DistStatus.vio theories/Model/DistFallback.vio theories/Model/DistArgs.vio theories/Proofs/DistStatus.vio theories/Proofs/DistFallback.vio theories/Proofs/DistArgs.vio
+theories/Properties/C13.vos theories/Properties/C13.vok theories/Properties/C13.required_vos: theories/Properties/C13.v theories/Base/Sx.vos theories/Model/DistStatus.vos theories/Model/DistFallback.vos theories/Model/DistArgs.vos theories/Proofs/DistStatus.vos theories/Proofs/DistFallback.vos theories/Proofs/DistArgs.vos
+theories/Properties/C14.vo theories/Properties/C14.glob theories/Properties/C14.v.beautified theories/Properties/C14.required_vo: theories/Properties/C14.v theories/Base/Sx.vo theories/Model/Stats.vo theories/Model/ReqSM.vo theories/Proofs/Stats.vo theories/Proofs/ReqSM.vo
+theories/Properties/C14.vio: theories/Properties/C14.v theories/Base/Sx.vio theories/Model/Stats.vio theories/Model/ReqSM.vio theories/Proofs/Stats.vio theories/Proofs/ReqSM.vio
+theories/Properties/C14.vos theories/Properties/C14.vok theories/Properties/C14.required_vos: theories/Properties/C14.v theories/Base/Sx.vos theories/Model/Stats.vos theories/Model/ReqSM.vos theories/Proofs/Stats.vos theories/Proofs/ReqSM.vos
+theories/Properties/C15.vo theories/Properties/C15.glob theories/Properties/C15.v.beautified theories/Properties/C15.required_vo: theories/Properties/C15.v theories/Base/Sx.vo theories/Model/Lru.vo theories/Model/RoCache.vo theories/Model/DiskConfig.vo theories/Proofs/RoCache.vo theories/Proofs/DiskConfig.vo
+theories/Properties/C15.vio: theories/Properties/C15.v theories/Base/Sx.vio theories/Model/Lru.vio theories/Model/RoCache.vio theories/Model/DiskConfig.vio theories/Proofs/RoCache.vio theories/Proofs/DiskConfig.vio
+theories/Properties/C15.vos theories/Properties/C15.vok theories/Properties/C15.required_vos: theories/Properties/C15.v theories/Base/Sx.vos theories/Model/Lru.vos theories/Model/RoCache.vos theories/Model/DiskConfig.vos theories/Proofs/RoCache.vos theories/Proofs/DiskConfig.vos
+theories/Properties/C16.vo theories/Properties/C16.glob theories/Properties/C16.v.beautified theories/Properties/C16.required_vo: theories/Properties/C16.v theories/Model/Jobserver.vo theories/Proofs/Jobserver.vo
+theories/Properties/C16.vio: theories/Properties/C16.v theories/Model/Jobserver.vio theories/Proofs/Jobserver.vio
+theories/Properties/C16.vos theories/Properties/C16.vok theories/Properties/C16.required_vos: theories/Properties/C16.v theories/Model/Jobserver.vos theories/Proofs/Jobserver.vos
+theories/Properties/C17.vo theories/Properties/C17.glob theories/Properties/C17.v.beautified theories/Properties/C17.required_vo: theories/Properties/C17.v theories/Base/Sx.vo theories/Model/Lru.vo theories/Model/TcCache.vo theories/Proofs/TcCache.vo
+theories/Properties/C17.vio: theories/Properties/C17.v theories/Base/Sx.vio theories/Model/Lru.vio theories/Model/TcCache.vio theories/Proofs/TcCache.vio
+theories/Properties/C17.vos theories/Properties/C17.vok theories/Properties/C17.required_vos: theories/Properties/C17.v theories/Base/Sx.vos theories/Model/Lru.vos theories/Model/TcCache.vos theories/Proofs/TcCache.vos
+theories/Properties/C18.vo theories/Properties/C18.glob theories/Properties/C18.v.beautified theories/Properties/C18.required_vo: theories/Properties/C18.v theories/Base/Sx.vo theories/Gen/C18Consts.vo theories/Model/Scheduler.vo theories/Proofs/Scheduler.vo
+theories/Properties/C18.vio: theories/Properties/C18.v theories/Base/Sx.vio theories/Gen/C18Consts.vio theories/Model/Scheduler.vio theories/Proofs/Scheduler.vio
+theories/Properties/C18.vos theories/Properties/C18.vok theories/Properties/C18.required_vos: theories/Properties/C18.v theories/Base/Sx.vos theories/Gen/C18Consts.vos theories/Model/Scheduler.vos theories/Proofs/Scheduler.vos
+theories/Properties/C19.vo theories/Properties/C19.glob theories/Properties/C19.v.beautified theories/Properties/C19.required_vo: theories/Properties/C19.v theories/Base/Sx.vo theories/Model/Paths.vo theories/Proofs/Paths.vo
+theories/Properties/C19.vio: theories/Properties/C19.v theories/Base/Sx.vio theories/Model/Paths.vio theories/Proofs/Paths.vio
+theories/Properties/C19.vos theories/Properties/C19.vok theories/Properties/C19.required_vos: theories/Properties/C19.v theories/Base/Sx.vos theories/Model/Paths.vos theories/Proofs/Paths.vos
+theories/Properties/C20.vo theories/Properties/C20.glob theories/Properties/C20.v.beautified theories/Properties/C20.required_vo: theories/Properties/C20.v theories/Model/Startup.vo theories/Model/ServerLife.vo theories/Proofs/Startup.vo theories/Proofs/ServerLife.vo
+theories/Properties/C20.vio: theories/Properties/C20.v theories/Model/Startup.vio theories/Model/ServerLife.vio theories/Proofs/Startup.vio theories/Proofs/ServerLife.vio
+theories/Properties/C20.vos theories/Properties/C20.vok theories/Properties/C20.required_vos: theories/Properties/C20.v theories/Model/Startup.vos theories/Model/ServerLife.vos theories/Proofs/Startup.vos theories/Proofs/ServerLife.vos
+theories/Run/C01.vo theories/Run/C01.glob theories/Run/C01.v.beautified theories/Run/C01.required_vo: theories/Run/C01.v theories/Base/Sx.vo theories/Model/ArgTypes.vo theories/Model/Args.vo theories/Gen/C01ArgTables.vo theories/Model/ArgsInst.vo
+theories/Run/C01.vio: theories/Run/C01.v theories/Base/Sx.vio theories/Model/ArgTypes.vio theories/Model/Args.vio theories/Gen/C01ArgTables.vio theories/Model/ArgsInst.vio
+theories/Run/C01.vos theories/Run/C01.vok theories/Run/C01.required_vos: theories/Run/C01.v theories/Base/Sx.vos theories/Model/ArgTypes.vos theories/Model/Args.vos theories/Gen/C01ArgTables.vos theories/Model/ArgsInst.vos
 theories/Run/C02.vo theories/Run/C02.glob theories/Run/C02.v.beautified theories/Run/C02.required_vo: theories/Run/C02.v theories/Base/Sx.vo theories/Model/KeyEnc.vo theories/Gen/C02HashSpec.vo
 theories/Run/C02.vio: theories/Run/C02.v theories/Base/Sx.vio theories/Model/KeyEnc.vio theories/Gen/C02HashSpec.vio
 theories/Run/C02.vos theories/Run/C02.vok theories/Run/C02.required_vos: theories/Run/C02.v theories/Base/Sx.vos theories/Model/KeyEnc.vos theories/Gen/C02HashSpec.vos
 theories/Run/C03.vo theories/Run/C03.glob theories/Run/C03.v.beautified theories/Run/C03.required_vo: theories/Run/C03.v theories/Base/Sx.vo theories/Model/Lru.vo theories/Model/HitModel.vo
 theories/Run/C03.vio: theories/Run/C03.v theories/Base/Sx.vio theories/Model/Lru.vio theories/Model/HitModel.vio
 theories/Run/C03.vos theories/Run/C03.vok theories/Run/C03.required_vos: theories/Run/C03.v theories/Base/Sx.vos theories/Model/Lru.vos theories/Model/HitModel.vos
-theories/Run/C04.vo theories/Run/C04.glob theories/Run/C04.v.beautified theories/Run/C04.required_vo: theories/Run/C04.v theories/Base/Sx.vo theories/Gen/C04Consts.vo theories/Model/TimeMacro.vo theories/Model/PpCache.vo
-theories/Run/C04.vio: theories/Run/C04.v theories/Base/Sx.vio theories/Gen/C04Consts.vio theories/Model/TimeMacro.vio theories/Model/PpCache.vio
-theories/Run/C04.vos theories/Run/C04.vok theories/Run/C04.required_vos: theories/Run/C04.v theories/Base/Sx.vos theories/Gen/C04Consts.vos theories/Model/TimeMacro.vos theories/Model/PpCache.vos
+theories/Run/C04.vo theories/Run/C04.glob theories/Run/C04.v.beautified theories/Run/C04.required_vo: theories/Run/C04.v theories/Base/Sx.vo theories/Gen/C04Consts.vo theories/Model/TimeMacro.vo theories/Model/PpCache.vo theories/Model/LineMarker.vo
+theories/Run/C04.vio: theories/Run/C04.v theories/Base/Sx.vio theories/Gen/C04Consts.vio theories/Model/TimeMacro.vio theories/Model/PpCache.vio theories/Model/LineMarker.vio
+theories/Run/C04.vos theories/Run/C04.vok theories/Run/C04.required_vos: theories/Run/C04.v theories/Base/Sx.vos theories/Gen/C04Consts.vos theories/Model/TimeMacro.vos theories/Model/PpCache.vos theories/Model/LineMarker.vos
+theories/Run/C05.vo theories/Run/C05.glob theories/Run/C05.v.beautified theories/Run/C05.required_vo: theories/Run/C05.v theories/Base/Sx.vo theories/Model/RustPath.vo theories/Model/DepInfo.vo theories/Model/RustArgs.vo theories/Model/RustKey.vo theories/Gen/C05HashSpec.vo theories/Gen/C05ArgTable.vo
+theories/Run/C05.vio: theories/Run/C05.v theories/Base/Sx.vio theories/Model/RustPath.vio theories/Model/DepInfo.vio theories/Model/RustArgs.vio theories/Model/RustKey.vio theories/Gen/C05HashSpec.vio theories/Gen/C05ArgTable.vio
+theories/Run/C05.vos theories/Run/C05.vok theories/Run/C05.required_vos: theories/Run/C05.v theories/Base/Sx.vos theories/Model/RustPath.vos theories/Model/DepInfo.vos theories/Model/RustArgs.vos theories/Model/RustKey.vos theories/Gen/C05HashSpec.vos theories/Gen/C05ArgTable.vos
 theories/Run/C06.vo theories/Run/C06.glob theories/Run/C06.v.beautified theories/Run/C06.required_vo: theories/Run/C06.v theories/Base/Sx.vo theories/Model/Lru.vo theories/Model/DiskCache.vo
 theories/Run/C06.vio: theories/Run/C06.v theories/Base/Sx.vio theories/Model/Lru.vio theories/Model/DiskCache.vio
 theories/Run/C06.vos theories/Run/C06.vok theories/Run/C06.required_vos: theories/Run/C06.v theories/Base/Sx.vos theories/Model/Lru.vos theories/Model/DiskCache.vos
@@ -157,6 +313,9 @@ theories/Run/C07.vos theories/Run/C07.vok theories/Run/C07.required_vos: theorie
 theories/Run/C08.vo theories/Run/C08.glob theories/Run/C08.v.beautified theories/Run/C08.required_vo: theories/Run/C08.v theories/Base/Sx.vo theories/Model/Crc32.vo theories/Model/Zip.vo
 theories/Run/C08.vio: theories/Run/C08.v theories/Base/Sx.vio theories/Model/Crc32.vio theories/Model/Zip.vio
 theories/Run/C08.vos theories/Run/C08.vok theories/Run/C08.required_vos: theories/Run/C08.v theories/Base/Sx.vos theories/Model/Crc32.vos theories/Model/Zip.vos
+theories/Run/C09.vo theories/Run/C09.glob theories/Run/C09.v.beautified theories/Run/C09.required_vo: theories/Run/C09.v theories/Base/Sx.vo theories/Model/Stats.vo theories/Model/ReqSM.vo
+theories/Run/C09.vio: theories/Run/C09.v theories/Base/Sx.vio theories/Model/Stats.vio theories/Model/ReqSM.vio
+theories/Run/C09.vos theories/Run/C09.vok theories/Run/C09.required_vos: theories/Run/C09.v theories/Base/Sx.vos theories/Model/Stats.vos theories/Model/ReqSM.vos
 theories/Run/C10.vo theories/Run/C10.glob theories/Run/C10.v.beautified theories/Run/C10.required_vo: theories/Run/C10.v theories/Base/Sx.vo theories/Model/FsModel.vo theories/Model/Extract.vo
 theories/Run/C10.vio: theories/Run/C10.v theories/Base/Sx.vio theories/Model/FsModel.vio theories/Model/Extract.vio
 theories/Run/C10.vos theories/Run/C10.vok theories/Run/C10.required_vos: theories/Run/C10.v theories/Base/Sx.vos theories/Model/FsModel.vos theories/Model/Extract.vos
@@ -169,6 +328,9 @@ theories/Run/C12.vos theories/Run/C12.vok theories/Run/C12.required_vos: theorie
 theories/Run/C13.vo theories/Run/C13.glob theories/Run/C13.v.beautified theories/Run/C13.required_vo: theories/Run/C13.v theories/Base/Sx.vo theories/Model/DistStatus.vo theories/Model/DistFallback.vo theories/Model/DistArgs.vo
 theories/Run/C13.vio: theories/Run/C13.v theories/Base/Sx.vio theories/Model/DistStatus.vio theories/Model/DistFallback.vio theories/Model/DistArgs.vio
 theories/Run/C13.vos theories/Run/C13.vok theories/Run/C13.required_vos: theories/Run/C13.v theories/Base/Sx.vos theories/Model/DistStatus.vos theories/Model/DistFallback.vos theories/Model/DistArgs.vos
+theories/Run/C14.vo theories/Run/C14.glob theories/Run/C14.v.beautified theories/Run/C14.required_vo: theories/Run/C14.v theories/Base/Sx.vo theories/Run/C09.vo
+theories/Run/C14.vio: theories/Run/C14.v theories/Base/Sx.vio theories/Run/C09.vio
+theories/Run/C14.vos theories/Run/C14.vok theories/Run/C14.required_vos: theories/Run/C14.v theories/Base/Sx.vos theories/Run/C09.vos
 theories/Run/C15.vo theories/Run/C15.glob theories/Run/C15.v.beautified theories/Run/C15.required_vo: theories/Run/C15.v theories/Base/Sx.vo theories/Model/Lru.vo theories/Model/RoCache.vo theories/Model/DiskConfig.vo
 theories/Run/C15.vio: theories/Run/C15.v theories/Base/Sx.vio theories/Model/Lru.vio theories/Model/RoCache.vio theories/Model/DiskConfig.vio
 theories/Run/C15.vos theories/Run/C15.vok theories/Run/C15.required_vos: theories/Run/C15.v theories/Base/Sx.vos theories/Model/Lru.vos theories/Model/RoCache.vos theories/Model/DiskConfig.vos
@@ -181,6 +343,9 @@ theories/Run/C17.vos theories/Run/C17.vok theories/Run/C17.required_vos: theorie
 theories/Run/C18.vo theories/Run/C18.glob theories/Run/C18.v.beautified theories/Run/C18.required_vo: theories/Run/C18.v theories/Base/Sx.vo theories/Gen/C18Consts.vo theories/Model/Scheduler.vo
 theories/Run/C18.vio: theories/Run/C18.v theories/Base/Sx.vio theories/Gen/C18Consts.vio theories/Model/Scheduler.vio
 theories/Run/C18.vos theories/Run/C18.vok theories/Run/C18.required_vos: theories/Run/C18.v theories/Base/Sx.vos theories/Gen/C18Consts.vos theories/Model/Scheduler.vos
+theories/Run/C19.vo theories/Run/C19.glob theories/Run/C19.v.beautified theories/Run/C19.required_vo: theories/Run/C19.v theories/Base/Sx.vo theories/Model/Paths.vo
+theories/Run/C19.vio: theories/Run/C19.v theories/Base/Sx.vio theories/Model/Paths.vio
+theories/Run/C19.vos theories/Run/C19.vok theories/Run/C19.required_vos: theories/Run/C19.v theories/Base/Sx.vos theories/Model/Paths.vos
 theories/Run/C20.vo theories/Run/C20.glob theories/Run/C20.v.beautified theories/Run/C20.required_vo: theories/Run/C20.v theories/Base/Sx.vo theories/Model/Startup.vo theories/Model/ServerLife.vo
 theories/Run/C20.vio: theories/Run/C20.v theories/Base/Sx.vio theories/Model/Startup.vio theories/Model/ServerLife.vio
 theories/Run/C20.vos theories/Run/C20.vok theories/Run/C20.required_vos: theories/Run/C20.v theories/Base/Sx.vos theories/Model/Startup.vos theories/Model/ServerLife.vos
